@@ -200,6 +200,12 @@ void Reference::apply_repetition(Array<Reference*>& result) {
     repetition.get_offsets(offsets);
     repetition.clear();
 
+    // A repetition with zero columns or rows has no offsets at all
+    if (offsets.count < 2) {
+        offsets.clear();
+        return;
+    }
+
     // Skip first offset (0, 0)
     double* offset_p = (double*)(offsets.items + 1);
     result.ensure_slots(offsets.count - 1);
